@@ -17,3 +17,22 @@ package batch
 //@   ascend 1 step partial: !continues ==> o.limit != nil && i == deref(o.limit) && calls(Write) - old(calls(Write)) == i - old(i) && i - old(i) < outItem(recordCounts, lastkey()).Count
 //@ func (*OutputPrinter).Run$lit4
 //@   loop 1 invariant rows: 0 <= j && j <= itemTyped.Count && i == wrap64(old(i) + j) && (o.limit != nil ==> 0 <= old(i)) && calls(Write) == old(calls(Write)) + j && (o.limit != nil ==> i <= deref(o.limit))
+
+// C09/C05: the order of the ORDER BY container: lexicographic in Compare over the sort key, each column's result
+// multiplied by its direction, then over the row's values — a strict weak order whose equivalence is "all key and
+// value columns Compare-equal" (so duplicates, and only duplicates, share an item and are counted).
+//@ spec outValid(p *outputItem) bool = addr(p) > 0 && validVs(p.Key) && validVs(p.Values) && len(p.DirectionMultipliers) == len(p.Key) && forall(j, 0, len(p.Key), p.DirectionMultipliers[j] == 1 || p.DirectionMultipliers[j] == 0 - 1)
+//@ spec outCompat(p *outputItem, q *outputItem) bool = len(p.Key) == len(q.Key) && len(p.Values) == len(q.Values) && forall(j, 0, len(p.Key), p.DirectionMultipliers[j] == q.DirectionMultipliers[j])
+//@ func (*outputItem).Less
+//@   requires itag(than) == typeidptr(outputItem) && outValid(item) && outValid(asptr(than, outputItem)) && outCompat(item, asptr(than, outputItem))
+//@   pure
+//@   loop 1 invariant keys: 0 <= i && i <= len(item.Key) && forall(j, 0, i, cmp(item.Key[j], thanTyped.Key[j]) == 0)
+//@   loop 2 invariant values: 0 <= i && i <= len(item.Values) && forall(j, 0, len(item.Key), cmp(item.Key[j], thanTyped.Key[j]) == 0) && forall(j, 0, i, cmp(item.Values[j], thanTyped.Values[j]) == 0)
+//@   ensures lex.key: forall(p, 0, len(item.Key), forall(j, 0, p, cmp(item.Key[j], asptr(than, outputItem).Key[j]) == 0) && cmp(item.Key[p], asptr(than, outputItem).Key[p]) != 0 ==> result == (cmp(item.Key[p], asptr(than, outputItem).Key[p]) * item.DirectionMultipliers[p] == 0 - 1))
+//@   ensures lex.values: forall(j, 0, len(item.Key), cmp(item.Key[j], asptr(than, outputItem).Key[j]) == 0) ==> forall(p, 0, len(item.Values), forall(j, 0, p, cmp(item.Values[j], asptr(than, outputItem).Values[j]) == 0) && cmp(item.Values[p], asptr(than, outputItem).Values[p]) != 0 ==> result == (cmp(item.Values[p], asptr(than, outputItem).Values[p]) == 0 - 1))
+//@   ensures lex.equal: forall(j, 0, len(item.Key), cmp(item.Key[j], asptr(than, outputItem).Key[j]) == 0) && forall(j, 0, len(item.Values), cmp(item.Values[j], asptr(than, outputItem).Values[j]) == 0) ==> !result
+//@ lemma outIrrefl(a *outputItem)
+//@   requires outValid(a)
+//@   ensures irreflexive: !a.Less(a)
+//@   use cmpRefl(a.Key[exit(a.Less(a), "i", 1)])
+//@   use cmpRefl(a.Values[exit(a.Less(a), "i", 2)])
